@@ -27,7 +27,9 @@ const never = int64(math.MaxInt64)
 type c20Chan struct {
 	id   uint64
 	form byte // 's': the first call is Send (single open frame), 'b': SendAndClose (open+close batch)
-	end  byte // 'c': ended by the client, 'h': the handler returns, 's': ended by the shutdown
+	end  byte // 'c': ended by the client, 'h': the handler returns, 's': ended by the shutdown,
+	// 'k': the handler ends the channel itself with SendAndClose and keeps running: its context
+	// must be cancelled by that
 	grp  int  // opener goroutine
 
 	// client side, written by the opener goroutine only (read after it has finished)
@@ -38,6 +40,7 @@ type c20Chan struct {
 	endStart  atomic.Int64
 
 	// server side
+	srvEnd      atomic.Int64 // when the handler began to end the channel itself ('k'), 0 = it did not
 	invocations atomic.Int32
 	first       atomic.Bool // set after the two fields below
 	tFirst      int64
@@ -121,6 +124,11 @@ func (r *c20Run) handle(ctx mpx.Context, ch mpx.Channel) status.Status {
 	}
 	if rec.end == 'h' {
 		return status.OK
+	}
+	if rec.end == 'k' {
+		// the channel ends from this side, by the handler's own SendAndClose
+		rec.srvEnd.Store(max(1, r.now()))
+		ch.SendAndClose(ctx, []byte("bye"))
 	}
 	select {
 	case <-ctx.Wait():
@@ -219,7 +227,7 @@ func c20Run1(idx int, seed uint64) c20Result {
 		if rnd.Intn(4) == 0 {
 			c.form = 'b'
 		}
-		c.end = []byte{'c', 'h', 's'}[rnd.Intn(3)]
+		c.end = []byte{'c', 'h', 's', 'k'}[rnd.Intn(4)]
 		if c.form == 'b' {
 			c.end = 'c'
 		}
@@ -328,6 +336,22 @@ func c20Run1(idx int, seed uint64) c20Result {
 						addViol("unexpected-message-after-handler-return")
 					} else if st.Code == status.CodeTimeout {
 						addViol("timeout-receive-end-after-handler-return")
+					}
+					ch.Free()
+				case 'k':
+					// the handler sends a last message with SendAndClose: it arrives, then the end
+					b, st := ch.Receive(ctx)
+					if st.OK() && !bytes.Equal(b, []byte("bye")) {
+						addViol("wrong-last-message-of-handler-id=%x", c.id)
+					}
+					if st.OK() {
+						if _, st := ch.Receive(ctx); st.OK() {
+							addViol("unexpected-message-after-handler-close")
+						} else if st.Code == status.CodeTimeout {
+							addViol("timeout-receive-end-after-handler-close")
+						}
+					} else if st.Code == status.CodeTimeout {
+						addViol("timeout-receive-last-message-of-handler")
 					}
 					ch.Free()
 				case 's':
@@ -562,6 +586,9 @@ func c20Run1(idx int, seed uint64) c20Result {
 			continue
 		}
 		alive := min(c.endStart.Load(), tShut) // the channel is certainly alive before this moment
+		if v := c.srvEnd.Load(); v != 0 {
+			alive = min(alive, v)
+		}
 		if !earlyClose {
 			if c.doneAtFirst && c.tFirst < alive {
 				addViol("ctx-cancelled-early-at-first-message-id=%x", c.id)
@@ -655,6 +682,19 @@ func runC20(a args, o *out) {
 		}
 		seed := hx.NewRand(a.seed ^ uint64(i+1)*0x9E3779B97F4A7C15).U64()
 		res := c20Run1(i, seed)
+		o.run(res.tokens, res.viol)
+	}
+	// peers that open channels and are gone at once
+	nb := 6
+	if a.tier == "thorough" {
+		nb = 60
+	}
+	for i := 0; i < nb && a.only < 0; i++ {
+		if bud.exhausted() {
+			skipped++
+			continue
+		}
+		res := c20Burst(i, hx.NewRand(a.seed^uint64(i+77)*0x9E3779B97F4A7C15).U64())
 		o.run(res.tokens, res.viol)
 	}
 	if skipped > 0 {
